@@ -502,7 +502,7 @@ def templates(rng, S, G, C):
     return P, T
 
 
-KNOWN_TEMPLATE_KEYS = {'floordiv': 'floordiv-negative-operand-truncates', 'mod': 'mod-negative-operand-sign', 'truediv': 'truediv-of-integers-is-integer-division',
+KNOWN_TEMPLATE_KEYS = {'date-plus-timedelta': 'sqlite-date-plus-timedelta-parameter', 'floordiv': 'floordiv-negative-operand-truncates', 'mod': 'mod-negative-operand-sign', 'truediv': 'truediv-of-integers-is-integer-division',
                        'slice-stop-minus-one': 'slice-stop-const-minus-one'}
 
 
@@ -569,6 +569,24 @@ def run_arith_witnesses(ctx):
                 ctx.violation('values returned by a projection differ from Python evaluation', {'query': q, 'rows': [r['a'] for r in rows]},
                               observed=[list(g) for g in got], expected=[list(x) for x in exp], key=key)
             else: ctx.count('witness-no-longer-fails:' + key)
+    db.disconnect()
+    # date + timedelta PARAMETER on SQLite: datetime(julianday(dob) + ?) yields 'YYYY-MM-DD HH:MM:SS', compared as text with a date
+    db = Database()
+    class D(db.Entity):
+        dob = Required(datetime.date)
+    db.bind('sqlite', ':memory:'); db.generate_mapping(create_tables=True)
+    with db_session:
+        D(dob=datetime.date(2000, 1, 1))
+    key = 'sqlite-date-plus-timedelta-parameter'
+    ctx.case(['witness', key], kind='witness')
+    with db_session:
+        ns = dict(D=D, select=select, td=datetime.timedelta(days=1), d=datetime.date(2000, 1, 2))
+        got = [[o.id for o in eval('select(x for x in D if x.dob + td > d)', ns)], [o.id for o in eval('select(x for x in D if x.dob + td == d)', ns)]]
+    if got != [[], [1]]:
+        ctx.violation('date + timedelta parameter compared with a date gives a different answer than Python',
+                      {'query': 'select(x for x in D if x.dob + td > d) / == d', 'dob': '2000-01-01', 'td': '1 day', 'd': '2000-01-02'},
+                      observed=got, expected=[[], [1]], key=key)
+    else: ctx.count('witness-no-longer-fails:' + key)
     db.disconnect()
 
 
